@@ -415,14 +415,13 @@ func (k Keeper) convertNativeCoin(ctx sdk.Context, targetCoin, coin sdk.Coin, me
 	return nil
 }
 
-func (k Keeper) convertNativeERC20(ctx sdk.Context, targetCoin, coin sdk.Coin, metadata banktypes.Metadata) error {
-	if coin.Denom == metadata.Base {
-		return k.bankKeeper.MintCoins(ctx, types.ModuleName, sdk.NewCoins(targetCoin))
+func (k Keeper) convertNativeERC20(ctx sdk.Context, targetCoin, coin sdk.Coin, _ banktypes.Metadata) error {
+	// the ERC-20 escrowed by the module backs the coin in all of its denominations together:
+	// the source denomination is burned and the target denomination is minted
+	if err := k.bankKeeper.BurnCoins(ctx, types.ModuleName, sdk.NewCoins(coin)); err != nil {
+		return err
 	}
-	if targetCoin.Denom == metadata.Base {
-		return k.bankKeeper.BurnCoins(ctx, types.ModuleName, sdk.NewCoins(coin))
-	}
-	return nil
+	return k.bankKeeper.MintCoins(ctx, types.ModuleName, sdk.NewCoins(targetCoin))
 }
 
 func (k Keeper) UpdateParams(c context.Context, req *types.MsgUpdateParams) (*types.MsgUpdateParamsResponse, error) {
